@@ -124,18 +124,28 @@ taskreport {report_id} "{report_id}" {{
     temp_fd, temp_path = tempfile.mkstemp(suffix=".tjp", prefix="plan_auto_")
     temp_file = Path(temp_path)
 
-    # Read original file
-    with open(tjp_path) as f:
-        original_content = f.read()
+    try:
+        # Read original file
+        with open(tjp_path) as f:
+            original_content = f.read()
 
-    # Write combined content and close file descriptor
-    with os.fdopen(temp_fd, "w") as f:
-        # Include original file
-        f.write(f"# Original file: {tjp_path}\n")
-        f.write("# Auto-report added by plan CLI\n\n")
-        f.write(original_content)
-        f.write("\n\n")
-        f.write(auto_report)
+        # Write combined content and close file descriptor
+        with os.fdopen(temp_fd, "w") as f:
+            temp_fd = -1  # owned by the file object from here on
+            # Include original file
+            f.write(f"# Original file: {tjp_path}\n")
+            f.write("# Auto-report added by plan CLI\n\n")
+            f.write(original_content)
+            f.write("\n\n")
+            f.write(auto_report)
+    except BaseException:
+        # The caller never learns the name of a half-written file: remove it here
+        if temp_fd >= 0:
+            with contextlib.suppress(OSError):
+                os.close(temp_fd)
+        with contextlib.suppress(OSError):
+            temp_file.unlink()
+        raise
 
     return temp_file, report_id
 
